@@ -262,6 +262,7 @@ def run_job(pid, job, tier, seed, hb, runner_exe, tag=""):
         ok, o, exe = build_harness(race=True)
         if not ok:
             return {"name": name, "error": "race build failed: " + o[-2000:]}
+        env["GORACE"] = "log_path=%s exitcode=0" % os.path.join(out, "race")
     cmd = [exe, name, "-seed", str(seed), "-n", str(n), "-tier", tier, "-out", out] + job.get("args", [])
     rc, o = sh(cmd, cwd=REPO, env=env, timeout=job.get("timeout", 3000))
     r = {"name": name, "n": n, "out": out, "harness_rc": rc, "harness_log": o[-3000:]}
@@ -312,6 +313,12 @@ def run_job(pid, job, tier, seed, hb, runner_exe, tag=""):
         if "\t" in l:
             cid, msg = l.split("\t", 1)
             ofs.append({"id": cid, "msg": msg})
+    for rf in sorted(glob.glob(os.path.join(out, "race.*"))):
+        txt = open(rf).read()
+        for blk in txt.split("==================")[:6]:
+            if "DATA RACE" in blk:
+                lines = [l.strip() for l in blk.strip().splitlines() if l.strip()]
+                ofs.append({"id": "race", "msg": "[C12-race] the Go race detector reported: " + " | ".join(lines[:8])[:700]})
     r["oracle_failures"] = ofs
     return r
 
